@@ -24,7 +24,7 @@ from harness.common.shrink import ddmin
 from harness.props import c06_facts
 
 PROP = "C06"
-DRIVER_MODULES = ["PsutilModel.Model.C06Gen", "PsutilModel.Spec.C06", "PsutilModel.Spec.C06Ext"]
+DRIVER_MODULES = ["PsutilModel.Model.C06Gen", "PsutilModel.Spec.C06", "PsutilModel.Spec.C06Ext", "PsutilModel.Spec.C06Hist"]
 NEEDS_EXT = True
 TRUSTED = [
     "C06 renderers: Spec.renderStat / Spec.renderStatus are transcriptions of do_task_stat / proc_pid_status (Name: escapes only \\n and \\\\); validated on every run against the live kernel's files of this process, its parent, PID 1, children renamed with prctl(PR_SET_NAME) to hostile names and task/<tid>/stat of threads of this process that renamed themselves (`w) S 1 2 3`, …), not verified",
@@ -35,10 +35,11 @@ TRUSTED = [
     "C06 CLOCK_TICKS: per case the module constant is set to what the module's own defining expression (right-hand side of `CLOCK_TICKS = ...` from the snapshot) evaluates to with os.sysconf('SC_CLK_TCK') answering the case's tick rate; the live-record cases run with the value computed at import, which is also compared with os.sysconf of this machine",
     "C06 int(): CPython >= 3.11 refuses decimal strings longer than sys.get_int_max_str_digits() (4300) with ValueError; the model's int() is unbounded. No kernel counter (<= 20 digits) comes near; C06_status_tokens_digits_only is a statement about the model beyond that length",
     "C06 /dev: glob's pattern matching is the real module's, run on a scratch tree holding one file per entry of the case (plus decoys); os.stat('/dev/..') is answered from the case (S_ISCHR/st_rdev/FileNotFoundError); the order of glob's result is the case's listing order",
+    "C06 histories: an exception leaving a oneshot() block is raised inside the body of a real `with p.oneshot():` statement and caught right outside it (classes: LookupError, AccessDenied, ZombieProcess, PermissionError, StopIteration, a BaseException subclass); the translator's walk over the generator uses an ordinary Exception subclass as the representative and decides `if` tests over module constants only (POSIX, LINUX, ...), any other `if` is not followed (the correspondence still plays the real code); one thread (the thread that owns the cache is C16's dimension); getters that raise inside a block, as_dict() as a step and threads()/create_time() are not part of the histories",
     "C06 threads(): os.listdir of the task directory is scripted (shuffled order); a vanished thread = listed directory without stat file (ENOENT), or _pslinux.open_binary patched for that one path to raise ProcessLookupError / to return a file whose read() raises it (ESRCH); 'process gone at the end' = os.stat(/proc/<pid>) and os.path.exists(/proc/<pid>/stat) fail while the fake procfs still serves the file (no zombie records in that sub-family)",
 ]
 MANIFEST = {
-    "level_text": "Machine-checked Lean 4 proofs that the model of _parse_stat_file/name/ppid/status/cpu_times/create_time/cpu_num/terminal and of threads() inverts the kernel's stat renderer for EVERY comm byte string (any bytes, any number of parentheses, blanks, newlines), every state letter, unbounded counters, old-kernel records without the trailing fields (C06_stat_roundtrip and its per-method corollaries, C06_threads_exact, C06_old_kernel_iowait_zero), that PROC_STATUSES is the documented letter table (C06_status_letter_map, decide over the generated dict), and that uids/gids/num_threads/num_ctx_switches extract the real lines of a status file rendered with the kernel's Name: escaping for every name (C06_status_extract, C06_ctx_switches_extract), with groups that accept exactly non-empty ASCII-digit runs so that no byte string can make them raise ValueError (C06_status_tokens_digits_only, C06_status_match_shape). Round 2 adds the code around the parsers: terminal() through the real get_terminal_map over an abstract /dev in any listing order with vanishing entries and aliases (C06_terminal_map_exact_code: TerminalMapExact_Full for the code as it is, non-device files included, since get_terminal_map tests S_ISCHR - fact tmapChecksChr pinned by xcfg_good / cfg_tmap_checks_chr; refuted for the configuration without the test by a regular file with st_rdev 0, C06_terminal_nondevice_counterexample), histories of calls in one interpreter: the memoised map answers, i.e. every call is exact for the /dev of the FIRST terminal() call (C06_terminal_memoized, C06_terminal_first_scan_wins) and for the current /dev whenever /dev did not change (C06_terminal_unchanged_dev_exact); C06_terminal_stale_counterexample only characterises the memoisation (a pty created later is not seen; by design, beyond the property's quantifier), create_time() end to end from the text of /proc/stat and /proc/<pid>/stat with the BOOT_TIME pin (C06_boot_time_exact, C06_create_time_end_to_end, C06_create_time_uses_pinned_boot_time), and the VALUE and ORDER of threads() for every os.listdir order and every set of threads that vanish mid-scan (C06_threads_order: string order of the names; C06_threads_value, C06_threads_gone, C06_threads_old_kernel; C06_threads_value_any_signal / C06_threads_gone_any_signal: the same for every assignment of vanish signals - FileNotFoundError on open or ProcessLookupError on open/read - to the ended threads; C06_threads_liveness_checked_only_after_vanish), and the falsy BOOT_TIME pin 0.0 (C06_create_time_zero_boot_time_rereads, C06_create_time_two_calls: the full two-call history over any two /proc/stat texts). The theorems hold for the configuration cfg_good, a proof obligation fed by translator facts (indices, find/rfind, regex keys, anchoring and separator form - 'exactly one tab' is a fact, not a model constant -, binary open mode; cfg_status_patterns: the exact source of the four compiled status regexes as the imported module holds them, so that any edit of a pattern breaks the obligation; xcfg_good: glob patterns, FileNotFoundError guard, memoize, btime key/index, cached boot time, sort, vanish handling for both exception classes, initial value of the hit_enoent flag); for the pre-fix configurations the negations are proved with concrete witnesses (thread named `a) b`; process named `Uid:\\t0\\t0\\t0`; text-mode reading with `\\r`). Tie: translator + differential run of the real Process methods over a fake procfs and a redirected /dev, called plainly, twice inside oneshot() (every getter on warm caches, the platform create_time()/ppid() included), through as_dict(), on the objects of process_iter() and through process_iter(attrs).info; Audit round: every tick theorem carries 0 < tck and needs it (C06_zero_tick_rate_raises: ZeroDivisionError at 0, no x/0 = 0 artefact); the PUBLIC name() with a non-empty command line (C06_public_name_exact: documented rule for 15-byte names; C06_public_name_short_is_comm: a shorter comm is returned byte for byte whatever argv[0] is; C06_public_name_extends_comm); histories of ANY length of create_time() and boot_time() calls interleaved over changing /proc/stat (C06_time_call_history); the report order of threads() restated with List.Lex (C06_threads_order_lex); anchors that are defining expressions pinned by their source text (cfg_source_anchors: CLOCK_TICKS = os.sysconf('SC_CLK_TCK'), the single S_ISCHR condition of get_terminal_map, the three guards and the source of the public name rule, no extra regex flags). FLOATS: all theorems are about exact rationals; the rounding of the doubles the code computes is bounded by C06_tick_quotient_rounding_bound / C06_create_time_rounding_bound under the explicit hypothesis of correctly rounded operations, and that bound is the tolerance of the correspondence. Thread names are explored on their own (exhaustive short names and `x) yz` forms for secondary threads, live task/<tid>/stat records of threads that renamed themselves).",
+    "level_text": "Machine-checked Lean 4 proofs that the model of _parse_stat_file/name/ppid/status/cpu_times/create_time/cpu_num/terminal and of threads() inverts the kernel's stat renderer for EVERY comm byte string (any bytes, any number of parentheses, blanks, newlines), every state letter, unbounded counters, old-kernel records without the trailing fields (C06_stat_roundtrip and its per-method corollaries, C06_threads_exact, C06_old_kernel_iowait_zero), that PROC_STATUSES is the documented letter table (C06_status_letter_map, decide over the generated dict), and that uids/gids/num_threads/num_ctx_switches extract the real lines of a status file rendered with the kernel's Name: escaping for every name (C06_status_extract, C06_ctx_switches_extract), with groups that accept exactly non-empty ASCII-digit runs so that no byte string can make them raise ValueError (C06_status_tokens_digits_only, C06_status_match_shape). Round 2 adds the code around the parsers: terminal() through the real get_terminal_map over an abstract /dev in any listing order with vanishing entries and aliases (C06_terminal_map_exact_code: TerminalMapExact_Full for the code as it is, non-device files included, since get_terminal_map tests S_ISCHR - fact tmapChecksChr pinned by xcfg_good / cfg_tmap_checks_chr; refuted for the configuration without the test by a regular file with st_rdev 0, C06_terminal_nondevice_counterexample), histories of calls in one interpreter: the memoised map answers, i.e. every call is exact for the /dev of the FIRST terminal() call (C06_terminal_memoized, C06_terminal_first_scan_wins) and for the current /dev whenever /dev did not change (C06_terminal_unchanged_dev_exact); C06_terminal_stale_counterexample only characterises the memoisation (a pty created later is not seen; by design, beyond the property's quantifier), create_time() end to end from the text of /proc/stat and /proc/<pid>/stat with the BOOT_TIME pin (C06_boot_time_exact, C06_create_time_end_to_end, C06_create_time_uses_pinned_boot_time), and the VALUE and ORDER of threads() for every os.listdir order and every set of threads that vanish mid-scan (C06_threads_order: string order of the names; C06_threads_value, C06_threads_gone, C06_threads_old_kernel; C06_threads_value_any_signal / C06_threads_gone_any_signal: the same for every assignment of vanish signals - FileNotFoundError on open or ProcessLookupError on open/read - to the ended threads; C06_threads_liveness_checked_only_after_vanish), and the falsy BOOT_TIME pin 0.0 (C06_create_time_zero_boot_time_rereads, C06_create_time_two_calls: the full two-call history over any two /proc/stat texts). The theorems hold for the configuration cfg_good, a proof obligation fed by translator facts (indices, find/rfind, regex keys, anchoring and separator form - 'exactly one tab' is a fact, not a model constant -, binary open mode; cfg_status_patterns: the exact source of the four compiled status regexes as the imported module holds them, so that any edit of a pattern breaks the obligation; xcfg_good: glob patterns, FileNotFoundError guard, memoize, btime key/index, cached boot time, sort, vanish handling for both exception classes, initial value of the hit_enoent flag); for the pre-fix configurations the negations are proved with concrete witnesses (thread named `a) b`; process named `Uid:\\t0\\t0\\t0`; text-mode reading with `\\r`). Tie: translator + differential run of the real Process methods over a fake procfs and a redirected /dev, called plainly, twice inside oneshot() (every getter on warm caches, the platform create_time()/ppid() included), through as_dict(), on the objects of process_iter() and through process_iter(attrs).info; Audit round: every tick theorem carries 0 < tck and needs it (C06_zero_tick_rate_raises: ZeroDivisionError at 0, no x/0 = 0 artefact); the PUBLIC name() with a non-empty command line (C06_public_name_exact: documented rule for 15-byte names; C06_public_name_short_is_comm: a shorter comm is returned byte for byte whatever argv[0] is; C06_public_name_extends_comm); histories of ANY length of create_time() and boot_time() calls interleaved over changing /proc/stat (C06_time_call_history); the report order of threads() restated with List.Lex (C06_threads_order_lex); anchors that are defining expressions pinned by their source text (cfg_source_anchors: CLOCK_TICKS = os.sysconf('SC_CLK_TCK'), the single S_ISCHR condition of get_terminal_map, the three guards and the source of the public name rule, no extra regex flags). FLOATS: all theorems are about exact rationals; the rounding of the doubles the code computes is bounded by C06_tick_quotient_rounding_bound / C06_create_time_rounding_bound under the explicit hypothesis of correctly rounded operations, and that bound is the tolerance of the correspondence. HISTORIES on one Process object (seeded round 5): the caching machinery between the public getters and the parsers - Process.oneshot(), memoize_when_activated, oneshot_enter/_exit - is modelled (two _cache slots, memoised stat parse / status text / cpu_times / ppid / uids) with the calls oneshot() reaches on entry, on a normal exit and when an exception propagates out of the block as translator facts (symbolic walk over the generator: hcfg_good, cfg_oneshot_anchors); C06_history_exact: for every history of any length - new records published in between, getters, blocks entered, nested, left normally or by an exception - a getter called outside every block reports exactly the record the kernel publishes at that moment, a getter inside a block a record published while the block was open (Spec/C06Hist.lean Conforms); refuted for the configuration whose platform teardown is not reached on an exception exit (C06_history_exc_exit_counterexample). The correspondence plays such histories on a real Process object with real nested with-statements (structured, random and exhaustive small families). Thread names are explored on their own (exhaustive short names and `x) yz` forms for secondary threads, live task/<tid>/stat records of threads that renamed themselves).",
     "level_note": "Trusted: Lean kernel + {propext, Classical.choice, Quot.sound}; translator; correspondence harness; kernel renderers (validated against the live kernel each run); CPython int/float/split/re modelled; theorems over exact rationals; doubles compared within the proved rounding bound (2u+u^2 / 3u+3u^2+u^3, u = 2^-53) under the assumption that float() and / are correctly rounded.",
     "technique": "Lean 4 round-trip proofs parse(render r) = view r over all byte strings + translator-fed proof obligation + differential correspondence through a fake procfs",
     "design_ref": "DESIGN.md §5 C06",
@@ -450,6 +451,204 @@ def gen_case(rng, family):
     if cl is not None:
         case["cmdline"] = cl
     return add_world(case, rng)
+
+
+# ------------------------------------------------------------------------------ histories on ONE Process object
+
+HIST_GETTERS = ["name", "ppid", "status", "cpu_times", "cpu_num", "terminal", "uids", "gids", "num_threads", "num_ctx_switches"]
+# how a `with p.oneshot():` block is left by an exception: what travels out of the block
+HIST_EXC = ["LookupError", "AccessDenied", "ZombieProcess", "BaseException", "StopIteration", "OSError"]
+# state letters whose STATUS_* constants are pairwise different
+HIST_STATES = b"RSDTtZXKWIP"
+
+
+def gen_world(rng, pid, ttys, prev=None, style=None):
+    """what the kernel publishes for the process at one moment: {"stat": rec, "status": rec}. A later world of the
+    SAME process (same pid, same start time) that differs from `prev` in the view of EVERY getter, so that a stale
+    answer of any getter is visible."""
+    stat = gen_stat_rec(rng, pid, style=style, ttys=ttys, state=rng.choice(HIST_STATES))
+    if len(bytes.fromhex(stat["comm"])) >= 15 and rng.random() < 0.5:
+        stat["comm"] = bytes.fromhex(stat["comm"])[:rng.randrange(0, 15)].hex()
+    comm = bytes.fromhex(stat["comm"])
+    status = gen_status_rec(rng, comm, pid, stat["f"][0], rng.choice([1, 2, 3, 5, 64]))
+    if prev is not None:
+        ps_, pu = prev["stat"], prev["status"]
+        stat["f"][18] = ps_["f"][18]                       # starttime: the same process all along
+        if stat["comm"] == ps_["comm"]:
+            comm = (comm[:14] + b"~") if not comm.endswith(b"~") else comm[:-1]
+            stat["comm"] = status["comm"] = comm.hex()
+        for col in (0, 3, 10, 11, 12, 13, 35):             # ppid, tty_nr, utime, stime, cutime, cstime, processor
+            if stat["f"][col] == ps_["f"][col]:
+                stat["f"][col] += 1 + col
+        while stat["state"] == ps_["state"] or {stat["state"], ps_["state"]} == {88, 120}:
+            stat["state"] = rng.choice(HIST_STATES)
+        if stat["tail"] is not None and ps_["tail"] is not None and stat["tail"][0] == ps_["tail"][0]:
+            stat["tail"][0] += 7
+        if stat["tail"] is None and (ps_["tail"] is None or ps_["tail"][0] == 0):
+            stat["tail"] = [5]
+        for k in ("uid", "gid"):
+            status[k] = [(a + 1 + i if a == b else a) for i, (a, b) in enumerate(zip(status[k], pu[k]))]
+        for k in ("threads", "vol", "nonvol"):
+            if status[k] == pu[k]:
+                status[k] += 3
+    return {"stat": stat, "status": status}
+
+
+def hist_case(rng, family, events_of, style=None):
+    """a history case; `events_of(next_world, gets)` builds the event list"""
+    pid = rng.choice([2, 42, 4194303, rng.randrange(2, 4194304)])
+    tmap = gen_tmap(rng)
+    ttys = [e[0] for e in tmap]
+    worlds = [gen_world(rng, pid, ttys, style=style)]
+
+    def next_world():
+        worlds.append(gen_world(rng, pid, ttys, prev=worlds[-1], style=style))
+        return {"publish": worlds[-1]}
+
+    def gets(n=None):
+        gs = list(HIST_GETTERS)
+        rng.shuffle(gs)
+        return [{"get": g} for g in (gs if n is None else gs[:n])]
+    return {"kind": "hist", "family": family, "pid": pid, "tck": rng.choice([100, 100, 250, 1000, 1024, 1]),
+            "btime": rng.choice([1, 1700000000, 2 ** 31 - 1]), "tmap": tmap, "init": worlds[0],
+            "events": events_of(next_world, gets)}
+
+
+def leave_exc(rng):
+    return {"leave": True, "with": rng.choice(HIST_EXC)}
+
+
+LEAVE = {"leave": False}
+
+
+def hist_templates(rng):
+    """the shapes the clause speaks about, each with fresh random records, getter orders and exception classes"""
+    X = lambda: leave_exc(rng)
+    some = lambda g: g(rng.randrange(1, 6))
+    return [
+        ("exc-exit-then-new-record", lambda P, G: ["enter"] + G() + [X(), P()] + G() + G(3)),
+        ("normal-exit-then-new-record", lambda P, G: ["enter"] + G() + [LEAVE, P()] + G()),
+        ("inner-exc-exit", lambda P, G: ["enter", "enter"] + G() + [X()] + some(G) + [LEAVE, P()] + G()),
+        ("outer-exc-exit", lambda P, G: ["enter", "enter"] + some(G) + [LEAVE, P()] + G() + [X(), P()] + G()),
+        ("reenter-after-exc-exit", lambda P, G: ["enter"] + G() + [X(), P(), "enter"] + G() + [LEAVE, P()] + G()),
+        ("publish-inside-exc-exit", lambda P, G: ["enter"] + some(G) + [P()] + G() + [X()] + G()),
+        ("empty-block-exc-exit", lambda P, G: ["enter", X(), P()] + G()),
+        ("partly-cached-exc-exit", lambda P, G: G() + ["enter"] + some(G) + [X(), P()] + G()),
+        ("two-exc-exits", lambda P, G: ["enter"] + some(G) + [X(), P(), "enter"] + some(G) + [X(), P()] + G()),
+        ("exc-exit-no-new-record", lambda P, G: ["enter"] + G() + [X()] + G()),
+    ]
+
+
+def gen_hist_structured(rng, i):
+    ts = hist_templates(rng)
+    name, f = ts[i % len(ts)]
+    return hist_case(rng, "history-structured", f, style=rng.choice([None, "small", "big"]))
+
+
+def gen_hist_random(rng):
+    def events_of(P, G):
+        evs, depth = [], 0
+        for _ in range(rng.randrange(5, 22)):
+            r = rng.random()
+            if r < 0.16 and depth < 3:
+                evs.append("enter")
+                depth += 1
+            elif r < 0.34 and depth > 0:
+                evs.append(leave_exc(rng) if rng.random() < 0.6 else LEAVE)
+                depth -= 1
+            elif r < 0.52:
+                evs.append(P())
+            else:
+                evs.extend(G(rng.randrange(1, 4)))
+        if rng.random() < 0.7:
+            while depth > 0 and rng.random() < 0.9:
+                evs.append(leave_exc(rng) if rng.random() < 0.5 else LEAVE)
+                depth -= 1
+            evs.append(P())
+            evs.extend(G())
+        return evs
+    return hist_case(rng, "history-random", events_of)
+
+
+def hist_exhaustive_cases():
+    """EVERY history of up to 3 steps over {enter, leave normally, leave by an exception, publish a new record,
+    name(), ppid(), uids(), gids()} (a getter that only the platform slot memoises and one that the front-end slot
+    memoises too, for each of the two files), each followed by: new record, all ten getters. Fixed records."""
+    import random
+    import itertools
+    rng = random.Random(6005)
+    alphabet = ["E", "Ln", "Lx", "P", "name", "ppid", "uids", "gids"]
+    pid, tmap = 4242, [[1025, b"/dev/tty1".hex()], [34816, b"/dev/pts/0".hex()]]
+    worlds = [gen_world(rng, pid, [1025, 34816], style="small")]
+    for _ in range(4):
+        worlds.append(gen_world(rng, pid, [1025, 34816], prev=worlds[-1], style="small"))
+    out = []
+    excs = itertools.cycle(HIST_EXC)
+    for n in range(0, 4):
+        for word in itertools.product(alphabet, repeat=n):
+            k, evs = 0, []
+            for sym in word:
+                if sym == "E":
+                    evs.append("enter")
+                elif sym == "Ln":
+                    evs.append(LEAVE)
+                elif sym == "Lx":
+                    evs.append({"leave": True, "with": next(excs)})
+                elif sym == "P":
+                    k += 1
+                    evs.append({"publish": worlds[k]})
+                else:
+                    evs.append({"get": sym})
+            evs.append({"publish": worlds[k + 1]})
+            evs.extend({"get": g} for g in HIST_GETTERS)
+            out.append({"kind": "hist", "family": "history-exhaustive", "pid": pid, "tck": 100, "btime": 1700000000,
+                        "tmap": tmap, "init": worlds[0], "events": evs})
+    return out
+
+
+def hist_features(case):
+    """what a history exercises (also used for the non-triviality of the case)"""
+    f, depth, stack = set(), 0, []
+    exc_left = False            # some block of this object was left by an exception so far
+    pub_since = False           # a record was published since the last block (left by an exception) was entered
+    worlds = 1
+    for ev in case["events"]:
+        if ev == "enter":
+            stack.append({"pub": False})
+            if len(stack) > 1:
+                f.add("hist:nested-block")
+            if exc_left:
+                f.add("hist:reenter-after-exc-exit")
+        elif isinstance(ev, dict) and "leave" in ev:
+            if not stack:
+                f.add("hist:unbalanced-leave")
+                continue
+            top = stack.pop()
+            f.add("hist:leave-by-exception" if ev["leave"] else "hist:leave-normally")
+            if ev["leave"]:
+                f.add("hist:exc:" + str(ev.get("with", "LookupError")))
+                if not stack:
+                    exc_left, pub_since = True, False
+            if stack and top["pub"]:
+                stack[-1]["pub"] = True
+        elif isinstance(ev, dict) and "publish" in ev:
+            worlds += 1
+            pub_since = True
+            for b in stack:
+                b["pub"] = True
+        elif isinstance(ev, dict) and "get" in ev:
+            if stack:
+                f.add("hist:get-inside-block" + ("-after-new-record" if stack[0]["pub"] else ""))
+            else:
+                f.add("hist:get-outside-block")
+                if exc_left and pub_since:
+                    f.add("hist:get-outside-after-exc-exit-and-new-record")
+                elif exc_left:
+                    f.add("hist:get-outside-after-exc-exit")
+    if stack:
+        f.add("hist:block-open-at-end")
+    f.add("hist:records-%s" % (worlds if worlds < 4 else "4+"))
+    return f
 
 
 GARBAGE = [b"x", b"-", b"12a", b"--1", b"1.5x", b"0x10", b"S", b"\xff", b"1-"]
@@ -889,6 +1088,90 @@ class Impl:
         return out
 
 
+    # -------------------------------------------------------------------------- histories
+
+    def run_hist(self, case, files):
+        """Play a history on ONE Process object with real `with p.oneshot():` blocks; returns (observations of the
+        `get` events in order, extra observables of the oneshot() machinery itself)."""
+        ps, fp = self.ps, self.fp
+        pid = case["pid"]
+        fp.clear()
+        fakeproc.reset_psutil_state(ps)
+        self.plat.CLOCK_TICKS = self.world_clock_ticks(case)
+        self.dev.set([[p, "chr", nr] for nr, p in case["tmap"]])
+        self.task_dir = self.gone_path = None
+        self.esrch = {}
+        fp.write("stat", "cpu  1 2 3 4 5 6 7 8 9 10\nctxt 5\nbtime %d\nprocesses 7\n" % case["btime"])
+        worlds = files["worlds"]
+        d = "%d/" % pid
+
+        def publish(k):
+            fp.write(d + "stat", bytes.fromhex(worlds[k]["stat"]))
+            fp.write(d + "status", bytes.fromhex(worlds[k]["status"]))
+        publish(0)
+        fp.write(d + "cmdline", b"")
+        fp.mkdir(d + "task")
+        evs = case["events"]
+        n_gets = sum(1 for ev in evs if isinstance(ev, dict) and "get" in ev)
+        made = fakeproc.outcome(ps.Process, pid)
+        if made["kind"] != "ok":
+            return [made] * n_gets, {}
+        p = made["value"]
+        obs, extra = [], {}
+        st = {"i": 0, "w": 0}
+
+        class _Abort(BaseException):
+            pass
+
+        def make_exc(name):
+            if name == "AccessDenied":
+                return ps.AccessDenied(pid)
+            if name == "ZombieProcess":
+                return ps.ZombieProcess(pid)
+            if name == "BaseException":
+                return _Abort("not an Exception subclass")
+            if name == "StopIteration":
+                return StopIteration("raised by the caller's own code")
+            if name == "OSError":
+                return PermissionError(13, "Permission denied")
+            return LookupError("application error inside the block")
+
+        def play(depth):
+            while st["i"] < len(evs):
+                ev = evs[st["i"]]
+                st["i"] += 1
+                if ev == "enter":
+                    how = None
+                    try:
+                        with p.oneshot():
+                            how = play(depth + 1)
+                            if how is not None:
+                                raise how
+                    except BaseException as e:  # noqa: BLE001
+                        if e is not how:
+                            if isinstance(e, (KeyboardInterrupt, SystemExit)):
+                                raise
+                            # the oneshot() machinery itself raised (or swallowed and replaced the exception)
+                            extra.setdefault("oneshot", {"kind": "exc", "exc": type(e).__name__})
+                    else:
+                        if how is not None:
+                            extra.setdefault("oneshot", {"kind": "exc", "exc": "ExceptionSwallowed"})
+                elif isinstance(ev, dict) and "leave" in ev:
+                    if depth == 0:
+                        continue
+                    return make_exc(ev.get("with")) if ev["leave"] else None
+                elif isinstance(ev, dict) and "publish" in ev:
+                    st["w"] += 1
+                    publish(st["w"])
+                else:
+                    obs.append(fakeproc.outcome(getattr(p, ev["get"])))
+            return None
+        play(0)
+        while len(obs) < n_gets:
+            obs.append({"kind": "exc", "exc": "NotCalled"})
+        return obs, extra
+
+
 BASE_METHOD = {"terminal_stale": "terminal", "create_time_pinned": "create_time", "proc_name": "name",
                "boot_time_now": "boot_time"}
 
@@ -968,6 +1251,10 @@ def fix_listing(case):
 
 
 def line_of(case):
+    if case.get("kind") == "hist":
+        strip = lambda ev: ({"leave": ev["leave"]} if isinstance(ev, dict) and "leave" in ev else ev)
+        return {"op": "hist", "tck": case["tck"], "tmap": case["tmap"], "init": case["init"],
+                "events": [strip(ev) for ev in case["events"]]}
     fix_listing(case)
     d = {"op": "proc", "tck": case["tck"], "btime": case["btime"], "tmap": case["tmap"], "stat": case["stat"],
          "status": case.get("status"), "threads": case["threads"]}
@@ -981,6 +1268,8 @@ def evaluate(impl, case, ans):
     """Run the implementation on the driver's files; return list of (method, impl, model, spec, kind)."""
     if "bad" in ans:
         raise InfraError("driver rejected case %r: %s" % (case.get("family"), ans))
+    if case.get("kind") == "hist":
+        return evaluate_hist(impl, case, ans)
     outs = impl.run(case, ans["files"])
     rows = []
     for key, o in outs.items():
@@ -997,6 +1286,28 @@ def evaluate(impl, case, ans):
         elif not agrees(m, ci, mo):
             kind = "model"
         rows.append((key, ci, mo, sp, kind))
+    return rows
+
+
+def evaluate_hist(impl, case, ans):
+    """rows (key, impl, model, spec, kind) of a history: one per `get` event, key `hist:<k>:<getter>`. The spec of an
+    observation is the LIST of exact reports the property allows (outside every block: one, for the record published
+    at that moment)."""
+    outs, extra = impl.run_hist(case, ans["files"])
+    gets = [ev["get"] for ev in case["events"] if isinstance(ev, dict) and "get" in ev]
+    rows = []
+    for key, o in extra.items():
+        rows.append(("hist:" + key, {"exc": o.get("exc")}, None, {"ok": "no exception of its own"}, "spec"))
+    for k, (g, o) in enumerate(zip(gets, outs)):
+        ci = canon_impl(g, o)
+        mo = ans["model"][k] if k < len(ans["model"]) else None
+        sp = ans["spec"][k] if ans.get("spec") else None
+        kind = None
+        if sp is not None and not any(agrees(g, ci, {"ok": v}) for v in sp["any_of"]):
+            kind = "spec"
+        elif mo is not None and not agrees(g, ci, mo):
+            kind = "model"
+        rows.append(("hist:%d:%s" % (k, g), ci, mo, sp, kind))
     return rows
 
 
@@ -1031,6 +1342,8 @@ def comm_features(comm):
 
 
 def case_features(case):
+    if case.get("kind") == "hist":
+        return hist_features(case)
     f = set()
     st = case["stat"]
     if "rec" in st:
@@ -1112,6 +1425,10 @@ def is_nontrivial(case):
     """a case is non-trivial when some name contains a delimiter/blank/escape/non-UTF-8 byte or imitates a
     status line, or counters reach 2^31, or the record is an old-kernel/malformed one"""
     f = case_features(case)
+    if case.get("kind") == "hist":
+        # the kernel's answer changes while the object lives, and a getter is asked after it changed
+        return bool(f & {"hist:get-outside-after-exc-exit-and-new-record", "hist:get-inside-block-after-new-record"}
+                    or ("hist:get-outside-block" in f and "hist:records-1" not in f))
     return bool(f & {"comm:rparen", "comm:lparen", "comm:blank", "comm:newline", "comm:cr", "comm:backslash",
                      "comm:non-utf8", "comm:status-key", "thread-comm:rparen", "stat:old-kernel", "stat:raw",
                      "counters:>=2^53", "counters:>=2^31"} or any(x.startswith("malformed") for x in f))
@@ -1216,6 +1533,13 @@ def run_cases(ctx, impl, cases, res, source_tag=None):
             res.count("family:" + c["family"])
             for f in feats:
                 res.count(f)
+            if c.get("kind") == "hist":
+                key = ("hist", tuple((w["stat"], w["status"]) for w in ans["files"]["worlds"]),
+                       tuple(ev if isinstance(ev, str) else tuple(sorted((k, str(v)) for k, v in ev.items() if k != "publish"))
+                             for ev in c["events"]), c["tck"])
+                res.case(key, nontrivial=is_nontrivial(c), sample=None)
+                record(res, c, rows, source_tag or c["family"])
+                continue
             sample = None
             if len(res.samples) < 6 and c["family"] in ("corpus", "paren", "statusname", "malformed", "oldkernel", "big"):
                 if not any(s["family"] == c["family"] for s in res.samples):
@@ -1250,10 +1574,17 @@ def correspond(ctx, res):
         for i in range(n_mal):
             cases.append(gen_malformed(ctx.rng))
         ex, n_state, n_comm, n_rel, n_tn = exhaustive_cases()
+        # histories on ONE Process object: records published in between, oneshot() blocks entered, nested, left
+        # normally or by an exception (family history-structured / -random / -exhaustive)
+        n_h = ctx.n(160, 2400)
+        hist = [gen_hist_structured(ctx.rng, i) for i in range(n_h)] + [gen_hist_random(ctx.rng) for _ in range(n_h)]
+        hex_ = hist_exhaustive_cases()
         lines = run_cases(ctx, impl, cases, res)
         lines += run_cases(ctx, impl, ex, res)
+        lines += run_cases(ctx, impl, hist, res)
+        lines += run_cases(ctx, impl, hex_, res)
         res.exhaustive = ("every state byte 0..255 (%d records) and every comm of length <= 3 over {'(', ')', ' ', '\\n', 'a', 0xff} "
-                          "(%d names, for the process, its status file and its thread) and every 15-byte name <suffix of Uid:/Gid:/Threads:/nonvoluntary_ctxt_switches:><'', ' ' or TAB><digits> digit- or left-padded (%d names) and, as names of secondary THREADS of a process called `main`, every comm of length 1..3 over that alphabet and every x + ') ' + y + z (%d thread names); the random families are samples" % (n_state, n_comm, n_rel, n_tn))
+                          "(%d names, for the process, its status file and its thread) and every 15-byte name <suffix of Uid:/Gid:/Threads:/nonvoluntary_ctxt_switches:><'', ' ' or TAB><digits> digit- or left-padded (%d names) and, as names of secondary THREADS of a process called `main`, every comm of length 1..3 over that alphabet and every x + ') ' + y + z (%d thread names) and EVERY history of up to 3 steps over {enter a oneshot() block, leave it normally, leave it by an exception, new record published, name(), ppid(), uids(), gids()} on one Process object, each followed by a new record and all ten getters (%d histories); the random families are samples" % (n_state, n_comm, n_rel, n_tn, len(hex_)))
         res.extra["driver_lines"] = lines
     finally:
         impl.close()
@@ -1270,7 +1601,10 @@ def search(ctx, res, broken):
         for i in range(n):
             cases.append(gen_case(ctx.rng, fams[i % len(fams)]))
         ex = exhaustive_cases()[0]
-        run_cases(ctx, impl, cases + ex, res, source_tag="search")
+        # the history families first: a violation that needs a history cannot show on a single record
+        hist = hist_exhaustive_cases() + [gen_hist_structured(ctx.rng, i) for i in range(ctx.n(300, 3000))] \
+            + [gen_hist_random(ctx.rng) for _ in range(ctx.n(300, 3000))]
+        run_cases(ctx, impl, hist + cases + ex, res, source_tag="search")
     finally:
         impl.close()
 
@@ -1289,11 +1623,39 @@ def _violates(impl, drv, case, method=None):
     return None
 
 
+def shrink_hist(ctx, d, case):
+    """minimise a failing history: fewer events (ddmin), then fewer getters' worth of machine (tmap, tick rate)"""
+    impl = Impl(ctx)
+    drv = ctx.driver().start()
+    try:
+        def bad(c):
+            return _violates(impl, drv, c, None)
+        if not bad(case):
+            return d
+        cur = case
+        evs = ddmin(cur["events"], lambda es: bool(bad(dict(cur, events=es))), max_tests=120)
+        if bad(dict(cur, events=evs)):
+            cur = dict(cur, events=evs)
+        for cand in (dict(cur, tmap=[]), dict(cur, tck=100), dict(cur, btime=1)):
+            if bad(cand):
+                cur = cand
+        v = bad(cur)
+        if v:
+            m, ci, mo, sp = v
+            return dict(d, input={"case": cur, "method": m, "source": "shrunk"}, impl=ci, model=mo, spec=sp)
+        return d
+    finally:
+        drv.close()
+        impl.close()
+
+
 def shrink(ctx, d):
     case = d["input"].get("case")
     method = d["input"].get("method")
     if not case:
         return d
+    if case.get("kind") == "hist":
+        return shrink_hist(ctx, d, case)
     impl = Impl(ctx)
     drv = ctx.driver().start()
     try:
